@@ -10,7 +10,7 @@
    absent (not admitted) — see notes/ALGO_design.md for the exact state. *)
 From Coq Require Import NArith List Bool.
 From CS Require Import Sx Str PathModel StateModel StateProofs ProvModel AlgoModel AlgoCheck AlgoProofs AlgoState AlgoProv AlgoInv AlgoInit AlgoQuiet AlgoIntake
-     AlgoSync AlgoLatest AlgoFinish AlgoSyncEntry AlgoStep AlgoUser AlgoCalls AlgoRun AlgoTotal AlgoSpec.
+     AlgoSync AlgoLatest AlgoFinish AlgoSyncEntry AlgoStep AlgoUser AlgoCalls AlgoRun AlgoTotal AlgoSpec AlgoProgress.
 Import ListNotations.
 Local Open Scope N_scope.
 
@@ -39,7 +39,8 @@ Theorem ALGO_inv_get_latest : forall evl g w e force sides w',
   InvP evl g w -> (2 <= e)%nat -> get_latest w e force sides = ROk w' ->
   InvP evl g w' /\ (forall sd0, prov_of w' sd0 = prov_of w sd0) /\
   (forall x sd0, x <> e -> getx w' x sd0 = getx w x sd0) /\ now (w_st w) <= now (w_st w') /\
-  (forall sd0, x_tfile (getx w' e sd0) = x_tfile (getx w e sd0)) /\ length (ents (w_st w')) = length (ents (w_st w)).
+  (forall sd0, x_tfile (getx w' e sd0) = x_tfile (getx w e sd0)) /\ length (ents (w_st w')) = length (ents (w_st w)) /\
+  (forall x, set_mem x (cset (w_st w)) = true -> set_mem x (cset (w_st w')) = true).
 Proof. exact get_latest_pres. Qed.
 Print Assumptions ALGO_inv_get_latest.
 
@@ -251,6 +252,28 @@ Theorem ALGO_quiescent_is_spec : forall used lvL lvR g w,
   forall sd rel kd d, In (rel, (kd, d)) (rel_view w sd) <-> (kd = ProvModel.KFile /\ (in_lv lvL rel d \/ in_lv lvR rel d)).
 Proof. exact quiescent_is_spec. Qed.
 Print Assumptions ALGO_quiescent_is_spec.
+
+(* ---- towards a step bound: no idle steps ---------------------------------------------------------------------- *)
+(* In every reachable world the change set is EXACTLY the set of entries that carry a change flag and an id (the
+   invariant now records exactness, not only completeness; StateModel's clause (iv) at full strength is refuted in
+   general - C11 - but holds on this fragment). *)
+Theorem ALGO_change_set_exact : forall t0 lg0 acts w e en,
+  lg0 <= t0 + 1 -> in_F1 (cfg_std 1) (history_of acts) = true ->
+  algo_run (world_init (cfg_std 1) t0 lg0) acts = ROk w -> nth_error (ents (w_st w)) e = Some en ->
+  (set_mem e (cset (w_st w)) = true <-> flagged en = true).
+Proof. exact algo_change_set_exact. Qed.
+Print Assumptions ALGO_change_set_exact.
+
+(* SyncManager.do is never idle while work is pending: with a non-empty change set, after the path-filling loop and the
+   clock tick of the step, the selection of SyncState.change (ageing 0) returns an entry - for every iteration order.
+   (With ALGO_quiescent_stable: an engine step does nothing iff there is nothing to do.)  The bound itself - a measure
+   that a fair round decreases - is NOT proved; see notes/ALGO_design.md section 7. *)
+Theorem ALGO_selection_not_idle : forall g w order w1,
+  Inv g w -> cset (w_st w) <> [] ->
+  fill_paths w (norm_order order (cset (w_st w))) = ROk w1 ->
+  pick (w_st (fst (tick w1))) (norm_order order (cset (w_st w))) (now (w_st w1) + 1000) <> None.
+Proof. exact selection_not_idle. Qed.
+Print Assumptions ALGO_selection_not_idle.
 
 (* ---- where the model can answer OutOfFragment ---------------------------------------------------------------- *)
 (* The theorems above are about runs on which the model answers ROk.  The model has 28 OutOfFragment codes plus the
